@@ -281,6 +281,23 @@ func TestCheck(t *testing.T) {
 	rep.Info["preemption_bound"] = bound
 	rep.Assume("interleavings are controlled at the vhook gates (capture stores, Marshal sections); code between two gates runs atomically with respect to other gated goroutines",
 		"memory-model races are not visible to the cooperative scheduler; they are looked for by the separate free-running -race pass (TestRace), which is a detector, not an enumeration")
+	if rq, ok := ev.ReplayRequest(); ok {
+		// bin/check C07 --replay <file>: run exactly the recorded schedule once, without the explorer
+		for _, sc := range scenarios() {
+			if sc.name == rq["scenario"] {
+				o, trace := mc.Replay(ev.Ints(rq["choices"]), func(c *mc.Chooser) mc.Outcome { return runOne(t, sc, c) })
+				rep.Add("schedules", 1)
+				rep.Add("states", int64(len(trace)))
+				rep.Add("transitions", int64(len(trace)))
+				rep.Add("traces_validated_against_impl", 1)
+				rep.Sample(map[string]any{"replayed_schedule": trace, "observation": o.Obs})
+				for i, v := range o.Violations {
+					rep.Violate(map[string]any{"kind": strings.SplitN(o.Sigs[i], ":", 2)[0], "scenario": sc.name, "detail": o.Sigs[i]}, rq, "%s", v)
+				}
+			}
+		}
+		return
+	}
 	for _, sc := range scenarios() {
 		b := bound
 		if sc.name == "three-streams" && !ev.Thorough() {
